@@ -482,5 +482,15 @@ Definition pfinish (st : pstate) : option jv :=
   | _ => None
   end.
 Definition parse_tokens (ts : list token) : option jv := pfinish (prun (PS [] None) ts).
-Definition parse (s : bytes) : option jv :=
+Definition parse_body (s : bytes) : option jv :=
   match lex s with Some ts => parse_tokens ts | None => None end.
+(* sen.Parser.Parse: a buffer of more than 3 bytes that starts with 0xEF must start with the UTF-8 byte order
+   mark, which is skipped ("expected BOM" otherwise) *)
+Definition strip_bom (s : bytes) : option bytes :=
+  match s with
+  | b0 :: b1 :: b2 :: b3 :: r =>
+    if Byte.eqb b0 xef then (if Byte.eqb b1 xbb && Byte.eqb b2 xbf then Some (b3 :: r) else None) else Some s
+  | _ => Some s
+  end.
+Definition parse (s : bytes) : option jv :=
+  match strip_bom s with Some s' => parse_body s' | None => None end.
